@@ -104,9 +104,23 @@ def _run_segment(ld, n, cdir, ops, fn, calls, handles, outs):
                 elif k == 'iterpart':
                     # an iteration IN FLIGHT: the first op[2] examples are consumed, the iterator stays suspended (and referenced)
                     # - if this segment ends with a kill, the process dies in the middle of the pass
-                    it = iter(d)
-                    INFLIGHT.append((h, it))
-                    outs.append(['vals', [enc(next(it), j) for j in range(op[2])]])
+                    # over a dict-backed source every other such pass reads (key, example) pairs: key iteration goes through the cache too
+                    try:
+                        ks = list(d.keys())
+                    except Exception:
+                        ks = None
+                    if ks is not None and (h + op[2]) % 2:
+                        it = iter(d.items())
+                        INFLIGHT.append((h, it))
+                        vals = []
+                        for j in range(op[2]):
+                            kk, x = next(it)
+                            vals.append(enc(x, j) if kk == ks[j] == f'k{j}' else -5)
+                        outs.append(['vals', vals])
+                    else:
+                        it = iter(d)
+                        INFLIGHT.append((h, it))
+                        outs.append(['vals', [enc(next(it), j) for j in range(op[2])]])
                 elif k == 'copy':
                     handles.append(d.copy(freeze=True))
                     outs.append(['new', len(handles) - 1])
